@@ -1177,7 +1177,15 @@ func (el edgeList) Less(i, j int) bool {
 	if el[i].Residual != el[j].Residual {
 		return !el[i].Residual
 	}
-	return !el[i].Inline && el[j].Inline
+	if el[i].Inline != el[j].Inline {
+		return !el[i].Inline
+	}
+	// Endpoints that print alike may still be different nodes, e.g. the same
+	// function in two object files; callgrind output tells them apart.
+	if compareNodes(el[i].Src, el[j].Src) != compareNodes(el[j].Src, el[i].Src) {
+		return compareNodes(el[i].Src, el[j].Src)
+	}
+	return compareNodes(el[i].Dest, el[j].Dest)
 }
 
 func (el edgeList) Swap(i, j int) {
